@@ -1,4 +1,8 @@
 import SnaxVerif.Drv.Basic
+import SnaxVerif.Model.StridePattern
+import SnaxVerif.Model.PackBits
+import SnaxVerif.Model.AffineTransform
+import SnaxVerif.Model.AttrSyntax
 namespace SnaxVerif.Drv.C19
 open Lean SnaxVerif SnaxVerif.Drv
 
@@ -14,7 +18,198 @@ def evalPts : Handler := fun j => do
   let pts ← listOf (listOf int) (← field j "pts")
   return jList (jOpt jInt) (pts.map fun p => e.eval (envOfList p))
 
+/-! ### stride patterns -/
+
+def natBound (j : Json) : Except String Nat := do
+  let i ← int j
+  if i < 0 then throw "negative upper bound: outside the model" else pure i.toNat
+
+def patOfJson (j : Json) : Except String Stride.Pattern := do
+  return { ub := ← listOf natBound (← field j "ub"), ts := ← listOf int (← field j "ts"),
+           ss := ← listOf int (← field j "ss") }
+
+def patToJson (p : Stride.Pattern) : Json :=
+  Json.mkObj [("ub", jList jNat p.ub), ("ts", jList jInt p.ts), ("ss", jList jInt p.ss)]
+
+/-- args: {"ub","ts","ss"} -> {"verify": bool, "canon": pattern, "addrs": [int] | null (too long)} -/
+def spCanon : Handler := fun j => do
+  let p ← patOfJson j
+  let size := p.loops.foldl (fun a l => a * l.1) 1
+  return Json.mkObj [("verify", Json.bool p.verify), ("canon", patToJson p.canonicalize),
+    ("addrs", if size ≤ 100000 then jList jInt p.addrs else Json.null)]
+
+/-! ### pack_bitlist -/
+
+def treeToJson : Pack.Tree → Json
+  | .shl v o => Json.arr #[Json.str "shl", jNat v, jNat o]
+  | .or a b => Json.arr #[Json.str "or", treeToJson a, treeToJson b]
+
+/-- args: {"vs":[nat], "os":[nat], "w": nat} -> {"raised": "ValueError"} | {"tree","value","valueW"} -/
+def pack : Handler := fun j => do
+  let vs ← listOf nat (← field j "vs")
+  let os ← listOf nat (← field j "os")
+  let w ← nat (← field j "w")
+  match Pack.pack vs os with
+  | .error .lengthMismatch => return Json.mkObj [("raised", Json.str "ValueError")]
+  | .ok none => return Json.mkObj [("tree", Json.null)]
+  | .ok (some t) =>
+    return Json.mkObj [("tree", treeToJson t), ("value", jNat t.eval), ("valueW", jNat (t.evalW w)),
+      ("spec", jNat (Pack.spec vs os))]
+
+/-! ### AffineTransform -/
+
+def transOfJson (j : Json) : Except String AT.Transform := do
+  return { nd := ← nat (← field j "nd"), A := ← listOf (listOf int) (← field j "A"),
+           b := ← listOf int (← field j "b") }
+
+def transToJson (t : AT.Transform) : Json :=
+  Json.mkObj [("nd", jNat t.nd), ("A", jList (jList jInt) t.A), ("b", jList jInt t.b)]
+
+def errName : AT.Err → String
+  | .valueError => "ValueError"
+  | .indexError => "IndexError"
+
+def exceptJson {α} (f : α → Json) : Except AT.Err α → Json
+  | .ok a => Json.mkObj [("ok", f a)]
+  | .error e => Json.mkObj [("raised", Json.str (errName e))]
+
+def wfT (t : AT.Transform) : Except String Unit :=
+  if t.wf then pure () else throw "transform is not well-formed (numpy would refuse it)"
+
+def atToMap : Handler := fun j => do
+  let t ← transOfJson j
+  wfT t
+  return jList aexprToJson t.toMap
+
+def atFromMap : Handler := fun j => do
+  let n ← nat (← field j "n")
+  let rs ← listOf aexprOfJson (← field j "rs")
+  return exceptJson transToJson (AT.fromMap n rs)
+
+def atCompose : Handler := fun j => do
+  let s ← transOfJson (← field j "s")
+  let o ← transOfJson (← field j "o")
+  wfT s; wfT o
+  return exceptJson transToJson (s.compose o)
+
+/-- args: {"s","o","xs"} -> {"raised"} | {"ok": transform, "evals": [[int]]} -/
+def atComposeEval : Handler := fun j => do
+  let s ← transOfJson (← field j "s")
+  let o ← transOfJson (← field j "o")
+  wfT s; wfT o
+  let xs ← listOf (listOf int) (← field j "xs")
+  match s.compose o with
+  | .error e => return Json.mkObj [("raised", Json.str (errName e))]
+  | .ok c =>
+    let evs ← xs.mapM fun x => match c.eval x with
+      | .ok y => pure (jList jInt y)
+      | .error e => throw s!"eval of the composition raised {errName e}"
+    return Json.mkObj [("ok", transToJson c), ("evals", Json.arr evs.toArray)]
+
+def atEval : Handler := fun j => do
+  let t ← transOfJson (← field j "t")
+  wfT t
+  let x ← listOf int (← field j "x")
+  return exceptJson (jList jInt) (t.eval x)
+
+/-! ### attribute syntax -/
+open Syntax in
+def tokToJson : Tok → Json
+  | .lt => "<" | .gt => ">" | .lsq => "[" | .rsq => "]" | .comma => "," | .minus => "-" | .eq => "="
+  | .ident s => Json.arr #[Json.str "id", Json.str s]
+  | .nat n => Json.arr #[Json.str "n", jNat n]
+
+open Syntax in
+def tokOfJson (j : Json) : Except String Tok :=
+  match j with
+  | .str "<" => pure .lt | .str ">" => pure .gt | .str "[" => pure .lsq | .str "]" => pure .rsq
+  | .str "," => pure .comma | .str "-" => pure .minus | .str "=" => pure .eq
+  | .arr #[.str "id", .str s] => pure (.ident s)
+  | .arr #[.str "n", n] => do pure (.nat (← nat n))
+  | _ => throw s!"bad token {j.compress}"
+
+def spaOfJson (j : Json) : Except String Syntax.SPAttr := do
+  return { ub := ← listOf int (← field j "ub"), ts := ← listOf int (← field j "ts"),
+           ss := ← listOf int (← field j "ss") }
+
+def spaToJson (p : Syntax.SPAttr) : Json :=
+  Json.mkObj [("ub", jList jInt p.ub), ("ts", jList jInt p.ts), ("ss", jList jInt p.ss)]
+
+/-- token-level damage of the malformed stream; the same function as `mutate` in harness/props/c19.py
+(test scaffolding, not part of the model): args "mut": null | [op, k] -/
+def mutateToks (toks : List Syntax.Tok) (j : Json) : Except String (List Syntax.Tok) := do
+  if j.isNull || toks.isEmpty then return toks
+  let a ← arr j
+  let op ← str a[0]!
+  let k ← nat a[1]!
+  let n := toks.length
+  let i := k % n
+  let ti := toks.getD i .comma
+  match op with
+  | "del" => return toks.eraseIdx i
+  | "dup" => return toks.take i ++ ti :: toks.drop i
+  | "swap" =>
+    if n ≤ 1 then return toks
+    let jx := (i + 1) % n
+    let tj := toks.getD jx .comma
+    return (toks.set i tj).set jx ti
+  | "minus" => return toks.take i ++ Syntax.Tok.minus :: toks.drop i
+  | "comma" => return toks.take i ++ Syntax.Tok.comma :: toks.drop i
+  | _ => throw s!"bad mutation {op}"
+
+/-- args: {"ub","ts","ss","mut"} -> {"toks": printed tokens, "parsed": attr | null (of the damaged tokens)} -/
+def spSyntax : Handler := fun j => do
+  let toks := Syntax.printSP (← spaOfJson j)
+  let toks' ← mutateToks toks (← field j "mut")
+  return Json.mkObj [("toks", jList tokToJson toks),
+    ("parsed", jOpt (fun p => spaToJson p.1) (Syntax.parseSP toks'))]
+
+def spParse : Handler := fun j => do
+  let toks ← listOf tokOfJson (← field j "toks")
+  return jOpt (fun p => spaToJson p.1) (Syntax.parseSP toks)
+
+open Syntax in
+def streamerOfJson (j : Json) : Except String Streamer := do
+  let ty ← match ← str (← field j "ty") with
+    | "r" => pure SType.reader | "w" => pure SType.writer | s => throw s!"bad streamer type {s}"
+  let temporal ← listOf (fun f => do
+    match Syntax.flagOf (← str f) with | some x => pure x | none => throw "bad flag") (← field j "temp")
+  let opts ← listOf (fun f => do
+    match Syntax.optOf (← str f) with | some x => pure x | none => throw "unknown option") (← field j "opts")
+  return { ty := ty, temporal := temporal, spatial := ← listOf nat (← field j "spat"), opts := opts }
+
+open Syntax in
+def cfgOfJson (j : Json) : Except String Config := do
+  let sys ← match ← str (← field j "sys") with
+    | "reg" => pure SysType.regular | "xdma" => pure SysType.xdma | s => throw s!"bad system type {s}"
+  return { streamers := ← listOf streamerOfJson (← field j "streamers"), sys := sys }
+
+open Syntax in
+def cfgToJson (c : Config) : Json :=
+  Json.mkObj [("streamers", jList (fun s => Json.mkObj [
+      ("ty", Json.str (stypeName s.ty)), ("temp", jList (fun f => Json.str (flagName f)) s.temporal),
+      ("spat", jList jNat s.spatial), ("opts", jList (fun o => Json.str (optName o)) s.opts)]) c.streamers),
+    ("sys", Json.str (match c.sys with | .regular => "reg" | .xdma => "xdma"))]
+
+/-- args: {"cfg", "mut"} -> {"toks", "parsed": config | null} -/
+def cfgSyntax : Handler := fun j => do
+  let toks := Syntax.printCfg (← cfgOfJson (← field j "cfg"))
+  let toks' ← mutateToks toks (← field j "mut")
+  return Json.mkObj [("toks", jList tokToJson toks),
+    ("parsed", jOpt (fun p => cfgToJson p.1) (Syntax.parseCfg toks'))]
+
+def cfgParse : Handler := fun j => do
+  let toks ← listOf tokOfJson (← field j "toks")
+  return jOpt (fun p => cfgToJson p.1) (Syntax.parseCfg toks)
+
+def optTable : Handler := fun _ => do
+  return jList (fun o => Json.str (Syntax.optName o)) Syntax.allOpts
+
 def handlers : List (String × Handler) :=
-  [("c19.canon", canon), ("c19.eval", evalPts)]
+  [("c19.canon", canon), ("c19.eval", evalPts), ("c19.sp_canon", spCanon), ("c19.pack", pack),
+   ("c19.at_tomap", atToMap), ("c19.at_frommap", atFromMap), ("c19.at_compose", atCompose),
+   ("c19.at_compose_eval", atComposeEval), ("c19.at_eval", atEval), ("c19.sp_syntax", spSyntax),
+   ("c19.sp_parse", spParse), ("c19.cfg_syntax", cfgSyntax), ("c19.cfg_parse", cfgParse),
+   ("c19.opt_table", optTable)]
 
 end SnaxVerif.Drv.C19
